@@ -3,6 +3,7 @@ import XL.Proofs.Range
 import XL.Proofs.ParseRender
 import XL.Proofs.ParseMin
 import XL.Proofs.LexTree
+import XL.Proofs.LexBlanks
 /-!
 # C01 — formulas are parsed according to Excel's operator grammar
 
@@ -299,6 +300,15 @@ and function calls; the text has no blanks and parentheses only where precedence
 need them, around `x%` under `%`, and around a signed right operand of `+`/`-` -/
 theorem compact_text_parses (ct : CT) (h : CT.WF ct) : parseString ct.text = .ok ct.toAst :=
   LexText.compact_text_parses ct h
+
+open XL.LexText in
+/-- **blanks between the tokens do not matter**: behind every token of the compact text any number of blanks may be
+written where the tokeniser allows them (`GapsOK`: behind a separator or a binary operator; in front of an operator,
+a sign, `%`, a separator, a closing parenthesis), none behind the last token — the text still parses to the tree -/
+theorem blanks_between_tokens (ct : CT) (h : CT.WF ct) (gs : List GT) (hf : fsts gs = ct.spec)
+    (hg : GapsOK gs none) (hl : (gs.getLast?.map (·.2)) = some 0) :
+    parseString ('=' :: textG gs) = .ok ct.toAst :=
+  LexText.compact_text_with_blanks_parses ct h gs hf hg hl
 
 open XL.LexText in
 /-- non-vacuity: `=1-2-(3-4)^-A1%*SUM(2,5&"x y",-(+BC20),(7%)%,1+(-2))` is the compact text of a well-formed tree -/
